@@ -775,12 +775,13 @@ def mon_C06(blocks):
                 # the comparison point moves with the accepted request
                 if _unq(b.ss["ip"]) != ip or int(b.ss["ua"]) != agent_hash(ua):
                     out.append(Violation(b.idx, "accepted request's address/user agent not recorded"))
-        elif d == "serve-ref" and v in repl_point and a.cfg["maxCache"] not in (0, 1):
+        if v in repl_point and a.cfg["maxCache"] not in (0, 1) and d not in ("refuse", "unknown-id") and (found_pre(b, v)[0] or {}).get("rf", "-") != "-":
             # through a replaced id the comparison point is the session's last accepted request at the time of replacement
             pip, pua = repl_point[v]
             an = ip_anomaly(a.cfg["acceptIP"], pip, ip)
             ua_bad = (not a.cfg["acceptUA"]) and agent_hash(pua) != 0 and agent_hash(pua) != agent_hash(ua)
-            if (an is True or ua_bad) and b.ret == "sess":
+            same = b.ret == "sess" and b.ss and g.sid_of.get(v) is not None and g.sid_of.get(_unq(b.ss["id"])) == g.sid_of.get(v)
+            if (an is True or ua_bad) and same:
                 out.append(Violation(b.idx, "a request presenting a replaced id from %s (%s) was served although the session's last accepted request "
                                             "before the replacement came from %s (%s)" % (ip, ua, pip, pua)))
 
